@@ -152,14 +152,19 @@ func buildPlan(id string, pinned map[string]string, tier string) *Plan {
 				p.Units = append(p.Units, Unit{Pkg: pk, Tags: "", Groups: []string{"stream"}})
 			}
 		}
+		for _, pk := range marshalPkgs("/repo") {
+			if _, err := os.Stat("/repo/" + strings.TrimPrefix(pk, "./") + "/zz_verif_contracts_encode.go"); err == nil {
+				p.Units = append(p.Units, Unit{Pkg: pk, Tags: "", Groups: []string{"encode"}})
+			}
+		}
 		p.Trusted = []string{"ring layer: coordinate decoders (SetBytesCanonical: proved under C08) are opaque here, only their error result is used",
 			"streaming codecs: the dynamic type of the value is fixed per contract variant (dyntype); readers, writers, reflect and the element / point codecs are opaque calls whose error results are captured at every call",
-			"option execute-as-range (slices of points): parallel.Execute(n, work) is executed as work(0, n); the partition of 0..n is the C10 contract of Execute, the independence of the iterations of the closure (no data race, no dependence on order or grouping) is assumed; sync/atomic additions are executed as plain read-modify-writes", "IsInSubGroup is an assumed pure predicate (exactness of the subgroup test is number theory); IsOnCurve is used through its C02 contract",
+			"option execute-as-range (slices of points): parallel.Execute(n, work) is executed as work(0, n); the partition of 0..n is the C10 contract of Execute, the independence of the iterations of the closure (no data race, no dependence on order or grouping) is assumed; sync/atomic additions are executed as plain read-modify-writes", "point encoders: PutElement is an opaque call that overwrites the result array (what it writes is its C08 contract); IsZero and LexicographicallyLargest of the coordinates are captured at the call sites", "IsInSubGroup is an assumed pure predicate (exactness of the subgroup test is number theory); IsOnCurve is used through its C02 contract",
 			"Sqrt returns a square root or nil (C01 contract of Sqrt is not yet proved: assumed at this layer)"}
 		p.NotCovered = []string{"G2 decoders over an extension field: the sign selection of the recovered Y and the value Y^2 = X^3 + b' are not stated (the extension-field methods are opaque calls: the clauses say that Legendre and Sqrt were applied to the same YSquared object and that Legendre != -1)",
-			"encoders (Bytes / RawBytes) and the round trip Bytes/SetBytes: not under contract; streaming Encoder / Decoder: the reflection fallback, the byte counters of the slice cases and the length prefixes are not under contract; of the slices-of-points cases of the decoder, that the loop of the recovery closure visits every index of the range it is handed is not stated (what every iteration it makes completes is)",
+			"the round trip Bytes/SetBytes as a theorem (encoders and decoders are each under contract; their composition needs the codec of the coordinates, C08, and that the flag bits do not collide with the bits of X: arithmetic on the modulus, not stated); the encoders of secp256k1; streaming Encoder / Decoder: the reflection fallback, the byte counters of the slice cases and the length prefixes are not under contract; of the slices-of-points cases of the decoder, that the loop of the recovery closure visits every index of the range it is handed is not stated (what every iteration it makes completes is)",
 			"twisted Edwards decoder: the sign selection and the value of x are not stated (acceptance implies a canonical y and an existing square root), the format has no subgroup test"}
-		p.Note = "G2Affine.setBytes of the 7 curves with a G2 decoder: same acceptance-implies-check clauses with all 2k (raw) / k (compressed) base-field coordinates decoded canonically (k = extension degree), the Legendre test and the square root applied to the same value. G1Affine.setBytes / unsafeSetCompressedBytes of every curve with the generated decoder: a nil error is returned only if the flag pattern is valid, the coordinates decoded canonically, infinity encodings are all-zero (every payload byte of the compressed, resp. raw, length is zero: stated over the input bytes), an uncompressed point passed the subgroup test or (when disabled) the on-curve test, a compressed point has Y = +-sqrt(X^3+b) with the sign selected by the flag and passed the subgroup test when enabled; byte counts match; short buffers give errors (no panic: all slice bounds are obligations). Streaming codecs, one contract variant per dynamic type of the value (Decoder.Decode: *[][]uint64, *[]uint64, *fr/fp.Element, *[]fr/fp.Element, *[][]fr.Element, *[][][]fr.Element, *G1Affine, *G2Affine, *[]G1Affine, *[]G2Affine; Encoder.encode / encodeRaw: the corresponding values and []G1Affine / []G2Affine): nil is returned only if every read / write and every element or point codec that was called returned no error (no error of an earlier item is overwritten by a later one), and a point is written as exactly the bytes its own Bytes / RawBytes returned. Slices of points (Decode of *[]G1Affine / *[]G2Affine, the closure handed to parallel.Execute executed as one range): every iteration of the recovery closure completes the point it is at - a compressed point goes through unsafeComputeY with the decoder's own subgroup flag, any other point through IsInSubGroup when the flag is set - and every failure is counted in the counter the function tests before returning nil. Twisted Edwards PointAffine.SetBytes (8 packages): total, refuses short buffers, accepts only if the y-coordinate was decoded canonically and the square root defining x exists. GT decoders (E12 / E24 / E6.SetBytes of the 7 pairing curves): accept only buffers of SizeOfGT bytes all of whose coordinates were decoded by the strict field decoder from one-element windows (the layout of the windows is not stated)."
+		p.Note = "G2Affine.setBytes of the 7 curves with a G2 decoder: same acceptance-implies-check clauses with all 2k (raw) / k (compressed) base-field coordinates decoded canonically (k = extension degree), the Legendre test and the square root applied to the same value. G1Affine.setBytes / unsafeSetCompressedBytes of every curve with the generated decoder: a nil error is returned only if the flag pattern is valid, the coordinates decoded canonically, infinity encodings are all-zero (every payload byte of the compressed, resp. raw, length is zero: stated over the input bytes), an uncompressed point passed the subgroup test or (when disabled) the on-curve test, a compressed point has Y = +-sqrt(X^3+b) with the sign selected by the flag and passed the subgroup test when enabled; byte counts match; short buffers give errors (no panic: all slice bounds are obligations). Streaming codecs, one contract variant per dynamic type of the value (Decoder.Decode: *[][]uint64, *[]uint64, *fr/fp.Element, *[]fr/fp.Element, *[][]fr.Element, *[][][]fr.Element, *G1Affine, *G2Affine, *[]G1Affine, *[]G2Affine; Encoder.encode / encodeRaw: the corresponding values and []G1Affine / []G2Affine): nil is returned only if every read / write and every element or point codec that was called returned no error (no error of an earlier item is overwritten by a later one), and a point is written as exactly the bytes its own Bytes / RawBytes returned. Slices of points (Decode of *[]G1Affine / *[]G2Affine, the closure handed to parallel.Execute executed as one range): every iteration of the recovery closure completes the point it is at - a compressed point goes through unsafeComputeY with the decoder's own subgroup flag, any other point through IsInSubGroup when the flag is set - and every failure is counted in the counter the function tests before returning nil. Twisted Edwards PointAffine.SetBytes (8 packages): total, refuses short buffers, accepts only if the y-coordinate was decoded canonically and the square root defining x exists. GT decoders (E12 / E24 / E6.SetBytes of the 7 pairing curves): accept only buffers of SizeOfGT bytes all of whose coordinates were decoded by the strict field decoder from one-element windows (the layout of the windows is not stated). Point encoders Bytes / RawBytes of G1 and G2 (9 curve packages), with the layout stated from the format (X then Y; a coordinate as its base-field components in descending order: A1 then A0, B1.A1 ... B0.A0; one big-endian field element per window of fp.Bytes bytes): the point at infinity is the flag byte followed by zeros and nothing else is written; otherwise every window receives exactly the component the format assigns to it, exactly once, and the first byte is the codec's first byte with the flag or-ed in (the 'largest' flag exactly when LexicographicallyLargest reported true for Y)."
 		return p
 	case "C17":
 		p := &Plan{ID: id}
